@@ -1216,6 +1216,223 @@ theorem C09_never_silent_string {F} (ops : FloatOps F) (lookup : Int → RefLook
          ((c = 44 ∨ c = 41) ∧ r.s.right = c :: t))) :=
   never_silent_string_of_cfg ops Generated.lexCfg (by decide) lookup nullable input r h hne
 
+/-! ## accept and writer theorems for BINARY, entity references, enumerations, STRING -/
+
+/-- BINARY, accept (any configuration): `"`, a non-empty run of hexadecimal digits, `"`, blanks, a delimiter: read with no
+    error to exactly those digits, the stream stops at the delimiter -/
+theorem C09_accept_binary {F} (ops : FloatOps F) (cfg : LexCfg) (lookup : Int → RefLookup) (nullable : Bool)
+    (hex sp rest : List Byte) (d : Byte) (hne : hex ≠ []) (hhex : hex.all isXDigit = true)
+    (hsp : sp.all isSpace = true) (hd : d = 44 ∨ d = 41) :
+    attrRead ops cfg lookup .binary nullable (IStream.ofBytes (34 :: (hex ++ [34]) ++ sp ++ d :: rest)) =
+      .ok ⟨.null, .bin hex, { left := sp.reverse ++ (34 :: (hex ++ [34])).reverse, right := d :: rest }⟩ := by
+  have hdd : isDelim attrDelims d = true := by rcases hd with rfl | rfl <;> decide
+  have hdn : isSpace d = false := by rcases hd with rfl | rfl <;> decide
+  obtain ⟨h0, hu, rfl⟩ : ∃ h0 hu, hex = h0 :: hu := by
+    cases hex with
+    | nil => exact absurd rfl hne
+    | cons h0 hu => exact ⟨h0, hu, rfl⟩
+  have hpre : (IStream.ofBytes (34 :: ((h0 :: hu) ++ [34]) ++ sp ++ d :: rest)).ws =
+      { left := [], right := 34 :: h0 :: (hu ++ 34 :: (sp ++ d :: rest)) } := by
+    have := ws_good0 [] 34 (h0 :: (hu ++ 34 :: (sp ++ d :: rest))) true (by decide)
+    simpa [IStream.ofBytes] using this
+  -- the word
+  obtain ⟨w, rst, h1, h2, h3⟩ := scanWord_spec isXDigit 34 h0 [34] (hu ++ 34 :: (sp ++ d :: rest)) true
+  have hsplit : (h0 :: hu) ++ (34 :: (sp ++ d :: rest)) = w ++ rst := by simpa using h1
+  have hrst : rst = [] ∨ ∃ c t, rst = c :: t ∧ isXDigit c = false := by
+    rcases h3 with ⟨hw, hp, _⟩ | ⟨_, hr, _⟩ | ⟨_, u, hr, hq, _⟩ | ⟨_, x, u, hr, _, hx, _⟩
+    · subst hw; simp at h1; exact Or.inr ⟨h0, _, h1.symm, hp⟩
+    · exact Or.inl hr
+    · exact Or.inr ⟨34, u, hr, hq⟩
+    · exact Or.inr ⟨x, u, hr, hx⟩
+  obtain ⟨ew, er⟩ := prefix_unique isXDigit (h0 :: hu) w (34 :: (sp ++ d :: rest)) rst hsplit hhex h2
+    (Or.inr ⟨34, _, rfl, by decide⟩) hrst
+  subst ew er
+  have hsw : scanWord isXDigit 34 h0 { left := h0 :: [34], right := hu ++ 34 :: (sp ++ d :: rest), skipws := true } =
+      (h0 :: hu, 34, { left := 34 :: ((h0 :: hu).reverse ++ [34]), right := sp ++ d :: rest, skipws := true }) := by
+    rcases h3 with ⟨hw, _, _⟩ | ⟨_, hr, _⟩ | ⟨_, u, hr, _, he⟩ | ⟨_, x, u, hr, hxq, _, _⟩
+    · cases hw
+    · cases hr
+    · simp only [List.cons.injEq, true_and] at hr; subst hr; exact he
+    · simp only [List.cons.injEq] at hr; exact absurd hr.1.symm hxq
+  have hcri := cri_delim cfg (34 :: ((h0 :: hu).reverse ++ [34])) sp rest d false true Sev.null hsp hdd hdn
+  simp only [attrRead, hpre, peekC_good]
+  simp only [show ((34 : Byte) == 36 || (34 : Byte) == 44 || (34 : Byte) == 41) = false from by decide, Bool.false_eq_true, if_false,
+    readBinary, ws_good0 _ _ _ _ (show isSpace 34 = false from by decide), IStream.good, Bool.not_false, Bool.and_self, Bool.not_true,
+    getInto_good, beq_self_eq_true, Bool.true_or, if_true, hsw]
+  simp only [List.reverse_cons, List.append_assoc, List.cons_append, List.nil_append] at hcri
+  simp [Sev.warnIf, hcri]
+
+/-- BINARY, accept, for the executable recognisers: every token of the grammar (and every lenient one) -/
+theorem C09_accept_binary_token {F} (ops : FloatOps F) (cfg : LexCfg) (lookup : Int → RefLookup) (nullable : Bool)
+    (tok body sp rest : List Byte) (d : Byte) (hb : binaryBody tok = some body) (hl : isBinaryLenient tok = true)
+    (hsp : sp.all isSpace = true) (hd : d = 44 ∨ d = 41) :
+    attrRead ops cfg lookup .binary nullable (IStream.ofBytes (tok ++ sp ++ d :: rest)) =
+      .ok ⟨.null, .bin body, { left := sp.reverse ++ tok.reverse, right := d :: rest }⟩ := by
+  have ht := binaryBody_eq tok body hb
+  subst ht
+  have hbody : body ≠ [] ∧ body.all isXDigit = true := by
+    unfold isBinaryLenient at hl
+    rw [hb] at hl
+    cases body with
+    | nil => simp at hl
+    | cons a u => exact ⟨by simp, by simpa using hl⟩
+  exact C09_accept_binary ops cfg lookup nullable body sp rest d hbody.1 hbody.2 hsp hd
+
+/-- entity reference, accept (any configuration): `#` digits whose value fits `int` and names an existing instance of a
+    conforming type, blanks, a delimiter: the attribute refers to that instance, no error, the stream stops at the delimiter -/
+theorem C09_accept_ref {F} (ops : FloatOps F) (cfg : LexCfg) (lookup : Int → RefLookup) (nullable : Bool)
+    (ds sp rest : List Byte) (d : Byte) (hne : ds ≠ []) (hds : ds.all isDigit = true)
+    (hrange : ((digitsVal ds 0 : Nat) : Int) ≤ intMax) (hfound : lookup ((digitsVal ds 0 : Nat) : Int) = .found)
+    (hsp : sp.all isSpace = true) (hd : d = 44 ∨ d = 41) :
+    attrRead ops cfg lookup .ref nullable (IStream.ofBytes (35 :: ds ++ sp ++ d :: rest)) =
+      .ok ⟨.null, .ref ((digitsVal ds 0 : Nat) : Int), { left := sp.reverse ++ (35 :: ds).reverse, right := d :: rest }⟩ := by
+  have hdd : isDelim attrDelims d = true := by rcases hd with rfl | rfl <;> decide
+  have hdn : isSpace d = false := by rcases hd with rfl | rfl <;> decide
+  have hdg : isDigit d = false := by rcases hd with rfl | rfl <;> decide
+  obtain ⟨d0, du, rfl⟩ : ∃ d0 du, ds = d0 :: du := by
+    cases ds with
+    | nil => exact absurd rfl hne
+    | cons d0 du => exact ⟨d0, du, rfl⟩
+  have hd0 : isDigit d0 = true := by simp at hds; exact hds.1
+  have hpre : (IStream.ofBytes (35 :: (d0 :: du) ++ sp ++ d :: rest)).ws =
+      { left := [], right := 35 :: d0 :: (du ++ (sp ++ d :: rest)) } := by
+    have := ws_good0 [] 35 (d0 :: (du ++ (sp ++ d :: rest))) true (by decide)
+    simpa [IStream.ofBytes] using this
+  have htok : isInteger (d0 :: du) = true := isInteger_unsigned _ hne hds
+  have hr : (sp ++ d :: rest) = [] ∨ ∃ c t, (sp ++ d :: rest) = c :: t ∧ isDigit c = false := by
+    right
+    cases sp with
+    | nil => exact ⟨d, rest, rfl, hdg⟩
+    | cons a sp' => exact ⟨a, sp' ++ d :: rest, rfl, space_not_digit (by simp at hsp; exact hsp.1)⟩
+  have hscan := scanInt_token longMin longMax [35] (d0 :: du) (sp ++ d :: rest) htok hr
+  have hss : splitSign (d0 :: du) = (false, d0 :: du) := splitSign_digits _ hne hds
+  have hden : denoteInteger (d0 :: du) = ((digitsVal (d0 :: du) 0 : Nat) : Int) := by simp [denoteInteger, hss]
+  have hge : (0 : Int) ≤ ((digitsVal (d0 :: du) 0 : Nat) : Int) := Int.natCast_nonneg _
+  have h1 : ¬ ((digitsVal (d0 :: du) 0 : Nat) : Int) > longMax := by
+    have : intMax ≤ longMax := by decide
+    omega
+  rw [hss, hden] at hscan
+  simp only [Bool.false_eq_true, if_false, h1] at hscan
+  simp only [List.cons_append] at hscan
+  have h2 : ¬ ((digitsVal (d0 :: du) 0 : Nat) : Int) < intMin := by
+    have : intMin ≤ 0 := by decide
+    omega
+  have h3 : ¬ ((digitsVal (d0 :: du) 0 : Nat) : Int) > intMax := by omega
+  have hskip := extractInt32_of_scan [35] d0 (du ++ (sp ++ d :: rest)) _ _ _ (digit_not_space hd0) hscan h2 h3
+  have hrne : (sp ++ d :: rest).isEmpty = false := by cases sp <;> rfl
+  have hcri := cri_delim cfg ((d0 :: du).reverse ++ [35]) sp rest d false true Sev.null hsp hdd hdn
+  simp only [attrRead, hpre, peekC_good]
+  simp only [show ((35 : Byte) == 36 || (35 : Byte) == 44 || (35 : Byte) == 41) = false from by decide, Bool.false_eq_true, if_false,
+    readEntityRef, ws_good0 _ _ _ _ (show isSpace 35 = false from by decide), getChar_good _ _ _ (show isSpace 35 = false from by decide),
+    Option.getD_some, Option.isSome_some, Bool.and_true, beq_self_eq_true, Bool.true_or, if_true,
+    show ((35 : Byte) == 64) = false from by decide, refTail, hskip, IStream.failed, Bool.or_self, hrne, hcri, hfound]
+  simp
+
+/-- BOOLEAN / LOGICAL / ENUMERATION, accept (any configuration): `.` word `.` where the upper-cased word is item `i` of the
+    kind's table (not the unset slot), blanks, a delimiter: item `i`, no error, the stream stops at the delimiter -/
+theorem C09_accept_enum {F} (ops : FloatOps F) (cfg : LexCfg) (lookup : Int → RefLookup) (k : Kind) (hk : EnumLike k)
+    (nullable : Bool) (name sp rest : List Byte) (d : Byte) (i : Nat)
+    (hne : name ≠ []) (hname : name.all pw = true) (hfind : findName k.enumKind.table (name.map toUpper) = some i)
+    (hset : k.enumKind.isUnsetIdx i = false)
+    (hsp : sp.all isSpace = true) (hd : d = 44 ∨ d = 41) :
+    attrRead ops cfg lookup k nullable (IStream.ofBytes (46 :: (name ++ [46]) ++ sp ++ d :: rest)) =
+      .ok ⟨.null, .enum i, { left := sp.reverse ++ (46 :: (name ++ [46])).reverse, right := d :: rest }⟩ := by
+  have hdd : isDelim attrDelims d = true := by rcases hd with rfl | rfl <;> decide
+  have hdn : isSpace d = false := by rcases hd with rfl | rfl <;> decide
+  obtain ⟨n0, nu, rfl⟩ : ∃ n0 nu, name = n0 :: nu := by
+    cases name with
+    | nil => exact absurd rfl hne
+    | cons n0 nu => exact ⟨n0, nu, rfl⟩
+  -- the word
+  obtain ⟨w, rst, h1, h2, h3⟩ := enumWord_spec n0 [46] (nu ++ 46 :: (sp ++ d :: rest)) true
+  have hsplit : (n0 :: nu) ++ (46 :: (sp ++ d :: rest)) = w ++ rst := by simpa using h1
+  have hrst : rst = [] ∨ ∃ c t, rst = c :: t ∧ pw c = false := by
+    rcases h3 with ⟨hw, hp, _⟩ | ⟨_, hr, _⟩ | ⟨_, u, hr, _⟩ | ⟨_, x, u, hr, _, hx, _⟩
+    · subst hw; simp at h1; exact Or.inr ⟨n0, _, h1.symm, hp⟩
+    · exact Or.inl hr
+    · exact Or.inr ⟨46, u, hr, pw_not_dot⟩
+    · exact Or.inr ⟨x, u, hr, hx⟩
+  obtain ⟨ew, er⟩ := prefix_unique pw (n0 :: nu) w (46 :: (sp ++ d :: rest)) rst hsplit hname h2
+    (Or.inr ⟨46, _, rfl, pw_not_dot⟩) hrst
+  subst ew er
+  have hsw : enumWord n0 { left := n0 :: [46], right := nu ++ 46 :: (sp ++ d :: rest), skipws := true } =
+      (n0 :: nu, 46, { left := 46 :: ((n0 :: nu).reverse ++ [46]), right := sp ++ d :: rest, skipws := true }) := by
+    rcases h3 with ⟨hw, _, _⟩ | ⟨_, hr, _⟩ | ⟨_, u, hr, he⟩ | ⟨_, x, u, hr, hxq, _, _⟩
+    · cases hw
+    · cases hr
+    · simp only [List.cons.injEq, true_and] at hr; subst hr; exact he
+    · simp only [List.cons.injEq] at hr; exact absurd hr.1.symm hxq
+  have hfin : enumFinish cfg k.enumKind true false (n0 :: nu) 46 Sev.null = (some i, Sev.null) := by
+    simp only [List.map_cons] at hfind
+    simp [enumFinish, hfind, hset, Sev.warnIf]
+  have hcri := cri_delim cfg (46 :: ((n0 :: nu).reverse ++ [46])) sp rest d false true Sev.null hsp hdd hdn
+  simp only [List.reverse_cons, List.append_assoc, List.cons_append, List.nil_append] at hcri
+  have hcond : ((46 : Byte) == 36 || (46 : Byte) == 44 || (46 : Byte) == 41) = false := by decide
+  have hshape := attrRead_enumlike ops cfg lookup k hk nullable [] (n0 :: (nu ++ 46 :: (sp ++ d :: rest))) 46 (by simp) (by decide) hcond
+  simp only [List.nil_append, List.reverse_nil] at hshape
+  have hin : (46 :: ((n0 :: nu) ++ [46]) ++ sp ++ d :: rest) = 46 :: n0 :: (nu ++ 46 :: (sp ++ d :: rest)) := by simp
+  rw [hin, hshape]
+  simp only [enumRead, readEnum, ws_good0 _ _ _ _ (show isSpace 46 = false from by decide), IStream.good, Bool.not_false, Bool.and_self,
+    Bool.not_true, Bool.false_eq_true, if_false, getInto_good, beq_self_eq_true, Bool.true_or, if_true, hsw, List.isEmpty_cons, hfin]
+  simp [enumValue, hset, hcri]
+
+/-- STRING, writer: the value is the literal; it is written as it is and reads back -/
+theorem C09_write_read_string {F} (ops : FloatOps F) (cfg : LexCfg) (lookup : Int → RefLookup) (nullable : Bool)
+    (tok sp rest : List Byte) (d : Byte) (htok : isString tok = true) (hsp : sp.all isSpace = true) (hd : d = 44 ∨ d = 41) :
+    attrWrite ops .string (.str tok) = tok ∧
+    attrRead ops cfg lookup .string nullable (IStream.ofBytes (attrWrite ops .string (.str tok) ++ sp ++ d :: rest)) =
+      .ok ⟨.null, .str tok, { left := sp.reverse ++ tok.reverse, right := d :: rest, skipws := false }⟩ :=
+  ⟨rfl, C09_accept_string ops cfg lookup nullable tok sp rest d htok hsp hd⟩
+
+/-- BINARY, writer: digits between double quotes, reads back -/
+theorem C09_write_read_binary {F} (ops : FloatOps F) (cfg : LexCfg) (lookup : Int → RefLookup) (nullable : Bool)
+    (hex sp rest : List Byte) (d : Byte) (hne : hex ≠ []) (hhex : hex.all isXDigit = true)
+    (hsp : sp.all isSpace = true) (hd : d = 44 ∨ d = 41) :
+    attrWrite ops .binary (.bin hex) = 34 :: (hex ++ [34]) ∧
+    attrRead ops cfg lookup .binary nullable (IStream.ofBytes (attrWrite ops .binary (.bin hex) ++ sp ++ d :: rest)) =
+      .ok ⟨.null, .bin hex, { left := sp.reverse ++ (34 :: (hex ++ [34])).reverse, right := d :: rest }⟩ := by
+  have hw : attrWrite ops .binary (.bin hex) = 34 :: (hex ++ [34]) := by
+    cases hex with
+    | nil => exact absurd rfl hne
+    | cons a u => simp [attrWrite, writeBinary]
+  exact ⟨hw, by rw [hw]; exact C09_accept_binary ops cfg lookup nullable hex sp rest d hne hhex hsp hd⟩
+
+/-- entity reference, writer: `#` and the decimal id, reads back to the same instance -/
+theorem C09_write_read_ref {F} (ops : FloatOps F) (cfg : LexCfg) (lookup : Int → RefLookup) (nullable : Bool)
+    (id : Nat) (sp rest : List Byte) (d : Byte) (hrange : (id : Int) ≤ intMax) (hfound : lookup (id : Int) = .found)
+    (hsp : sp.all isSpace = true) (hd : d = 44 ∨ d = 41) :
+    isRef (attrWrite ops .ref (.ref (id : Int))) = true ∧ denoteRef (attrWrite ops .ref (.ref (id : Int))) = (id : Int) ∧
+    attrRead ops cfg lookup .ref nullable (IStream.ofBytes (attrWrite ops .ref (.ref (id : Int)) ++ sp ++ d :: rest)) =
+      .ok ⟨.null, .ref (id : Int), { left := sp.reverse ++ (attrWrite ops .ref (.ref (id : Int))).reverse, right := d :: rest }⟩ := by
+  obtain ⟨h1, h2, h3⟩ := toDigits_spec id
+  have hw : attrWrite ops .ref (.ref (id : Int)) = 35 :: (Nat.toDigits 10 id).map Char.toNat := by
+    have : ¬ ((id : Int) < 0) := by omega
+    simp [attrWrite, showInt, this]
+  rw [hw]
+  refine ⟨?_, ?_, ?_⟩
+  · simp only [isRef, allDigits, h2, Bool.and_true]
+    cases hq : (List.map Char.toNat (Nat.toDigits 10 id)) with
+    | nil => exact absurd hq h3
+    | cons a u => rfl
+  · simp [denoteRef, h1]
+  · have := C09_accept_ref ops cfg lookup nullable _ sp rest d h3 h2 (by rw [h1]; exact hrange) (by rw [h1]; exact hfound) hsp hd
+    rw [h1] at this
+    exact this
+
+/-- ENUMERATION (any item table), writer: for an item whose name is a word (letters, digits, `_`) that the table look-up
+    finds at its own index, `.NAME.` is written and reads back -/
+theorem C09_write_read_enum {F} (ops : FloatOps F) (cfg : LexCfg) (lookup : Int → RefLookup) (k : Kind) (hk : EnumLike k)
+    (nullable : Bool) (i : Nat) (name sp rest : List Byte) (d : Byte)
+    (hname : k.enumKind.table.getD i bUNSET = name) (hne : name ≠ []) (hpw : name.all pw = true)
+    (hfind : findName k.enumKind.table (name.map toUpper) = some i) (hset : k.enumKind.isUnsetIdx i = false)
+    (hsp : sp.all isSpace = true) (hd : d = 44 ∨ d = 41) :
+    attrWrite ops k (.enum i) = 46 :: (name ++ [46]) ∧
+    attrRead ops cfg lookup k nullable (IStream.ofBytes (attrWrite ops k (.enum i) ++ sp ++ d :: rest)) =
+      .ok ⟨.null, .enum i, { left := sp.reverse ++ (46 :: (name ++ [46])).reverse, right := d :: rest }⟩ := by
+  have hw : attrWrite ops k (.enum i) = 46 :: (name ++ [46]) := by
+    simp only [attrWrite, hname]; simp
+  exact ⟨hw, by rw [hw]; exact C09_accept_enum ops cfg lookup k hk nullable name sp rest d i hne hpw hfind hset hsp hd⟩
+
 /-! ## witnesses: what the unrepaired scanners did, and the in-band null (any configuration)
 
 Each `…_witness_unrepaired` theorem evaluates the model under the configuration of the tree *before* the C09 repairs on the
